@@ -8,6 +8,7 @@ import PV.Model.ChanPairLemmas
 import PV.Model.ChanDrainLemmas
 import PV.Model.ChanNotifyLemmas
 import PV.Generated.ChanLock
+import PV.Generated.C20
 namespace PV.Props.C20
 open PV.Chan PV.ChanPair
 
@@ -256,6 +257,32 @@ theorem messages_name_the_peers_id :
     the separation of every lock region from the `emit` actions that follow it. -/
 theorem no_send_under_channel_lock : PV.Generated.ChanLock.sendsUnderLock = [] := by
   decide
+
+/-- **Each end configures its receive side with exactly the sizes it advertises**: the arguments of
+    `chan._set_window(…)` and the window / max-packet fields written into CHANNEL_OPEN_CONFIRMATION
+    (`_parse_channel_open`, the acceptor) and CHANNEL_OPEN (`open_channel`, the initiator) are the same expressions
+    (AST of transport.py on this run).  This is what `initPair` assumes: the receiver's adjust threshold is a tenth
+    of the window the SENDER was given, whatever the other end announced for its own receive side. -/
+theorem receive_side_uses_the_advertised_sizes :
+    PV.Generated.C20.acceptorSetWindow.length = 2 ∧
+    PV.Generated.C20.acceptorSetWindow = PV.Generated.C20.acceptorAdvertised ∧
+    PV.Generated.C20.initiatorSetWindow.length = 2 ∧
+    PV.Generated.C20.initiatorSetWindow = PV.Generated.C20.initiatorAdvertised := by
+  decide
+
+/-- … and with that the threshold never exceeds what the sender may send, for ANY pair of independently chosen
+    windows: after any schedule `in_window_threshold` of side b is `winB / 10 ≤ winB` = the initial window of side a
+    (so the credit of `every_byte_counts_back` always becomes an adjust before the sender's window can run dry
+    for good: `stuck_impossible`). -/
+theorem threshold_within_the_advertised_window (winA maxA winB maxB nthr : Nat) :
+    (initPair winA maxA winB maxB nthr).b.inThreshold = winB / 10 ∧
+    (initPair winA maxA winB maxB nthr).b.inThreshold ≤ (initPair winA maxA winB maxB nthr).a.outWin ∧
+    (initPair winA maxA winB maxB nthr).a.inThreshold ≤ (initPair winA maxA winB maxB nthr).b.outWin := by
+  refine ⟨rfl, ?_, ?_⟩
+  · show winB / 10 ≤ winB
+    exact Nat.div_le_self _ _
+  · show winA / 10 ≤ winA
+    exact Nat.div_le_self _ _
 
 /-! ## several parked senders: nobody is left asleep (notify_all vs notify) -/
 
